@@ -43,6 +43,16 @@ def bind_args_simple(c):
     return [U(a) for a in c.args]
 
 
+def is_none_test_of(test, name):
+    """'notnone' for `name is not None`, 'none' for `name is None`, else None."""
+    if isinstance(test, ast.Compare) and len(test.ops) == 1 and isinstance(test.left, ast.Name) and test.left.id == name and isinstance(test.comparators[0], ast.Constant) and test.comparators[0].value is None:
+        if isinstance(test.ops[0], ast.IsNot):
+            return 'notnone'
+        if isinstance(test.ops[0], ast.Is):
+            return 'none'
+    return None
+
+
 def run(ctx):
     src = ctx.src
     t = src.tree(CRYPTO)
@@ -154,6 +164,26 @@ def run(ctx):
             okiv = okiv and len(tags) == 1
         ctx.check(okiv, 'C06.R2', 'CryptographyEngine.%s|iv-aad-tag' % fn.name, site, 'IV passed to the mode, AAD authenticated, GCM tag %s' % ('verified' if undo else 'returned'),
                   'IV / additional data / tag handling deviates from the sibling shape')
+    # ---------------- R7 every result of a symmetric cipher operation went through update + finalize (tag computed / verified there)
+    ctx.rule('C06.R7', 'in _encrypt_symmetric and _decrypt_symmetric every path to a normal return passes <context>.finalize() of the cipher context (GCM tags are produced and verified only there), and, where additional authenticated data is given, authenticate_additional_data before it')
+    for fn in (enc, dec):
+        fg = CFG(fn)
+        site = '%s:%s CryptographyEngine.%s' % (CRYPTO, fn.lineno, fn.name)
+        fin = [n for n in fg.nodes for c in calls_at(n) if isinstance(c.func, ast.Attribute) and c.func.attr == 'finalize' and isinstance(c.func.value, ast.Name) and c.func.value.id in ('encryptor', 'decryptor')]
+        ctx.check(bool(fin) and fg.all_paths_pass(fg.entry, fg.exit, fin), 'C06.R7', 'CryptographyEngine.%s|finalize-on-every-return' % fn.name, site,
+                  'every normal return is preceded by finalize() (%d site(s))' % len(fin),
+                  'a path returns a result without passing the cipher context\'s finalize(): for an authenticated mode the tag (and the additional data) is then never verified / produced')
+        aadn = [n for n in fg.nodes for c in calls_at(n) if isinstance(c.func, ast.Attribute) and c.func.attr == 'authenticate_additional_data']
+        tests = [n for n in fg.nodes if n.kind == 'test' and is_none_test_of(n.stmt, 'auth_additional_data')]
+        okaad = bool(aadn) and len(fin) == 1 and all(fg.all_paths_pass(a, fg.exit, fin) for a in aadn)
+        if okaad:
+            # execution condition of the AAD call = execution condition of finalize() AND "additional data given"
+            de_f = set((tn.id, lab) for tn, lab in dominating_edges(fg, fin[0]))
+            for a in aadn:
+                extra = [(tn, lab) for tn, lab in dominating_edges(fg, a) if (tn.id, lab) not in de_f]
+                okaad = okaad and len(extra) == 1 and is_none_test_of(extra[0][0].stmt, 'auth_additional_data') == ('notnone' if extra[0][1] == 'T' else 'none')
+        ctx.check(okaad, 'C06.R7', 'CryptographyEngine.%s|aad-before-finalize' % fn.name, site, 'additional data, when given, is authenticated before finalize()',
+                  'additional authenticated data is not fed to the cipher context on every path on which it is given before finalize()')
     hp = get_method(cls, '_handle_symmetric_padding')
     hg = CFG(hp)
     un = [(n, c) for n in hg.nodes for c in calls_at(n) if isinstance(c.func, ast.Attribute) and c.func.attr in ('unpadder', 'padder')]
